@@ -566,6 +566,9 @@ FTP_E2E_LISTINGS = [
     'lrwxrwxrwx 1 u g 5 Jan 01 2020 l -> %s\r\n' % ('t' * 5000),
     'lrwxrwxrwx 1 u g 5 Jan 01 2020 l\x00m -> a\x00b\r\n',
     'lrwxrwxrwx 1 u g 5 Jan 01 2020 caf\xe9 -> \xe9t\xe9\r\n',
+    # file names that look like a URL with a scheme, with bytes that are not UTF-8
+    '-rw-r--r-- 1 u g 5 Jan 01 2020 Re: caf\xe9.txt\r\n-rw-r--r-- 1 u g 5 Jan 01 2020 mailto:\xff\r\n',
+    '-rw-r--r-- 1 u g 5 Jan 01 2020 http://[::1\r\n-rw-r--r-- 1 u g 5 Jan 01 2020 //x\xfe/y\r\n',
 ]
 FTP_E2E_SCENARIOS = {
     'files': (['ftp://f.test/dir/f.txt', 'ftp://f.test/zz/g.txt'], []),
